@@ -3,6 +3,7 @@
 package dtls
 
 import (
+	"strings"
 	"errors"
 	"fmt"
 	"io"
@@ -415,6 +416,43 @@ func c05Mutants13(rng *vRand, raw []byte, cidLen int, other []byte, budget int) 
 	return muts, names
 }
 
+// c05CBCPaddingMutants: the genuine CBC record followed by two more ciphertext blocks Y, X. The
+// last plaintext block is D(X) xor Y, so sweeping the last byte of Y makes the final plaintext byte
+// (the padding length) take all 256 values: exactly one of them points the MAC at its genuine
+// position. Every one of these records must be discarded (the padding bytes are wrong, or the MAC).
+func c05CBCPaddingMutants(rng *vRand, raw []byte, cidLen int) (muts [][]byte, names []string) {
+	hdr := recordlayer.FixedHeaderSize
+	if raw[0] == byte(protocol.ContentTypeConnectionID) {
+		hdr += cidLen
+	}
+	lenIdx := hdr - 2
+	cl := int(raw[lenIdx])<<8 | int(raw[lenIdx+1])
+	y, x := rng.bytes(16), rng.bytes(16)
+	for k := 0; k < 256; k++ {
+		m := append([]byte(nil), raw...)
+		yy := append([]byte(nil), y...)
+		yy[15] = byte(k)
+		m = append(append(m, yy...), x...)
+		m[lenIdx], m[lenIdx+1] = byte((cl+32)>>8), byte(cl+32)
+		muts = append(muts, m)
+		names = append(names, fmt.Sprintf("cbc-append2:%d", k))
+	}
+	// the same with the last genuine block replaced: D(last) xor prev, sweeping prev's last byte
+	if cl >= 48 {
+		for k := 0; k < 256; k++ {
+			if byte(k) == raw[len(raw)-17] {
+				continue // that is the genuine record
+			}
+			m := append([]byte(nil), raw...)
+			m[len(m)-17] = byte(k)
+			muts = append(muts, m)
+			names = append(names, fmt.Sprintf("cbc-prev-last:%d", k))
+		}
+	}
+
+	return muts, names
+}
+
 func runC05(t *testing.T, v c05Variant, rng *vRand, nPayloads, budget, w int) c05Case {
 	t.Helper()
 	ccfg, scfg := v.configs()
@@ -502,6 +540,10 @@ func runC05(t *testing.T, v c05Variant, rng *vRand, nPayloads, budget, w int) c0
 			muts, names = c05Mutants13(rng, caps[i].Data, cidLen, caps2[i].Data, budget)
 		} else {
 			muts, names = c05Mutants(rng, caps[i].Data, cidLen, caps2[i].Data, budget)
+		}
+		if i == 0 && !v.V13 && strings.Contains(v.Name, "cbc") {
+			m2, n2 := c05CBCPaddingMutants(rng, caps[i].Data, cidLen)
+			muts, names = append(muts, m2...), append(names, n2...)
 		}
 		for j := range muts {
 			arrive(muts[j], "mutant", names[j], -1)
